@@ -28,12 +28,12 @@ class Gen:
         self.cmds.append(dict(sc=self.sc, op="scenario", cls=cls))
         return self.sc
 
-    def add(self, k, op, **kw):
-        kw.update(sc=k, op=op)
+    def add(self, sc_, op_, **kw):
+        kw.update(sc=sc_, op=op_)
         self.cmds.append(kw)
 
-    def one(self, cls, op, **kw):
-        self.add(self.scenario(cls), op, **kw)
+    def one(self, cls_, op_, **kw):
+        self.add(self.scenario(cls_), op_, **kw)
 
 
 # ---------------------------------------------------------------- solving for rejection rules
